@@ -186,6 +186,16 @@ class BodyPart:
                 description='invalid text or charset: {}'.format(charset)
             ) from err
 
+    def _decode_header(self, value: bytes, encoding: str = 'utf-8') -> str:
+        # NOTE: Header bytes that cannot be decoded make the body part, and
+        #   hence the form, malformed; do not let UnicodeDecodeError escape.
+        try:
+            return value.decode(encoding)
+        except UnicodeDecodeError as err:
+            raise MultipartParseError(
+                description='invalid text in the body part headers'
+            ) from err
+
     @property
     def content_type(self) -> str:
         """Value of the Content-Type header.
@@ -196,7 +206,7 @@ class BodyPart:
         #   Each part MAY have an (optional) "Content-Type" header field, which
         #   defaults to "text/plain".
         value = self._headers.get(b'content-type', b'text/plain')
-        return value.decode('ascii')
+        return self._decode_header(value, 'ascii')
 
     @property
     def filename(self) -> Optional[str]:
@@ -204,7 +214,7 @@ class BodyPart:
         if self._filename is _UNSET:
             if self._content_disposition is None:
                 value = self._headers.get(b'content-disposition', b'')
-                self._content_disposition = parse_header(value.decode())
+                self._content_disposition = parse_header(self._decode_header(value))
 
             _, params = self._content_disposition
 
@@ -259,7 +269,7 @@ class BodyPart:
         if self._name is _UNSET:
             if self._content_disposition is None:
                 value = self._headers.get(b'content-disposition', b'')
-                self._content_disposition = parse_header(value.decode())
+                self._content_disposition = parse_header(self._decode_header(value))
 
             _, params = self._content_disposition
             self._name = params.get('name')
